@@ -1,6 +1,8 @@
 import FmpRpc.Proofs.TransportInv
+import FmpRpc.Proofs.TransportInvA7
+import FmpRpc.Proofs.TransportInvA8
 import FmpRpc.Props.C13
-import FmpRpc.Props.C09
+import FmpRpc.Props.PeerHyp
 /-
   C08 — cancellation and timeouts end the call promptly and reach its
   handler.  (A timeout is a context with a deadline: the same environment
@@ -29,7 +31,19 @@ def ownActs (c : Nat) (pc : CPc) : List Act :=
 theorem cancel_returns_without_help (s : St) (hr : Reachable s) (c : Nat)
     (hctx : (s.callers c).ctxDone = true) (hw : waiting (s.callers c).pc = true) :
     ∃ a ∈ ownActs c (s.callers c).pc, (step s a).isSome := by
-  sorry
+  have hS := SInv_reach s hr
+  cases hpc : (s.callers c).pc <;> simp [hpc, waiting] at hw
+  case hand x => exact ⟨.cHandCtx c, by simp [ownActs], by simp [step, hpc, hctx]⟩
+  case sel1 x => exact ⟨.cSel1Ctx c, by simp [ownActs], by simp [step, hpc, hctx]⟩
+  case sel2 => exact ⟨.cSel2Ctx c, by simp [ownActs], by simp [step, hpc, hctx]⟩
+  case cHand y =>
+    obtain ⟨-, hst, hk, hwho, hasync, -⟩ := hS.cCHand c y hpc
+    by_cases hd : s.encDone = true
+    · exact ⟨.cCancelDone c, by simp [ownActs], by simp [step, hpc, hd]⟩
+    · by_cases hw : s.w = .idle
+      · refine ⟨.wRecv y, by simp [ownActs], ?_⟩
+        simp [step, hw, hst, hk, hasync, hwho, hpc]
+      · exact ⟨.cCancelAsync c, by simp [ownActs], by simp [step, hpc, hd, hw]⟩
 
 /-- After the wait, the remaining steps of the caller (encode the cancel,
     poll, records, remove) never wait for anybody. -/
@@ -39,12 +53,20 @@ theorem cancel_path_never_blocks (s : St) (hr : Reachable s) (c : Nat) :
     ((s.callers c).pc = .cRec → (step s (.cCancelRec c)).isSome) ∧
     (∀ o, (s.callers c).pc = .fin o → (step s (.cFin c)).isSome) ∧
     (∀ o, (s.callers c).pc = .rm o → (step s (.cRm c)).isSome) := by
-  sorry
+  refine ⟨?_, ?_, ?_, ?_, ?_⟩
+  · intro h; simp [step, h]
+  · intro y h; simp [step, h]
+  · intro h; simp [step, h]
+  · intro o h; simp [step, h]
+  · intro o h; simp [step, h]
 
 /-- A call that goes through `handleCancel` returns the context's error. -/
 theorem cancel_outcome (s s' : St) (c : Nat) (h : step s (.cCancelRec c) = some s') :
     (s'.callers c).pc = .fin (.err .ctx) := by
-  sorry
+  simp only [step] at h
+  split at h
+  · injection h with h; subst h; simp
+  · simp at h
 
 /-- The cancellation frame carries the seqno of its call and follows the call
     frame on the wire (C13.cancel_after_call). -/
@@ -53,7 +75,11 @@ theorem cancel_follows_call (s : St) (hr : Reachable s) (y : Nat) (hy : y ∈ s.
     (s.sends y).seq = (s.callers (s.sends y).who).seq ∧
     ∃ x, (s.sends x).kind = .call ∧ (s.sends x).who = (s.sends y).who ∧
       ∃ i j : Nat, s.wlog[i]? = some x ∧ s.wlog[j]? = some y ∧ i < j := by
-  sorry
+  have hA := OAll_reach s hr
+  have hlt : y < s.nextSend := wlog_lt s hA.si hA.wi y (by simp [hy])
+  refine ⟨(hA.o1.o1 y hlt (.inr hk)).1, ?_⟩
+  obtain ⟨x, h1, h2, -, h4⟩ := C13.cancel_after_call s hr y hy hk hsent
+  exact ⟨x, h1, h2, h4⟩
 
 /-- A delivered cancellation cancels the context of exactly the handler
     registered under that seqno — which, because a handler is registered
@@ -63,13 +89,22 @@ theorem cancel_reaches_handler (s s' : St) (hr : Reachable s) (q : Int) (h : Nat
     (hr' : s.r = .canSel q) (ht : s.tasks q = some h) (hs : step s .rCanSend = some s') :
     (s'.handlers h).ctxCancelled = true ∧
     ∀ h', h' ≠ h → (s'.handlers h').ctxCancelled = (s.handlers h').ctxCancelled := by
-  sorry
+  simp only [step, hr'] at hs
+  split at hs
+  · rename_i htl
+    simp only [ht] at hs
+    injection hs with hs; subst hs
+    refine ⟨?_, ?_⟩
+    · simp [cancelHandler_h_ctx]
+    · intro h' hne; simp [cancelHandler_h_ctx, hne]
+  · simp at hs
 
 /-- A request is registered in the task table before its handler runs and
     before the receive loop reads another frame. -/
 theorem task_registered_before_next_frame (s : St) (hr : Reachable s) (hp : C09.PeerSeqsDistinct s)
     (h : Nat) (hrun : (s.handlers h).pc = .run) (hnc : (s.handlers h).ctxCancelled = false) :
     s.tasks (s.handlers h).task = some h := by
-  sorry
+  have hp' : PeerOK s.hist := ⟨hp.1, hp.2.1⟩
+  exact (TInv_reach s hr hp').t4 h hrun hnc
 
 end FmpRpc.C08
